@@ -51,6 +51,24 @@ func (a *Allocator) toIndex(base net.IP) (uint, error) {
 	return uint(value), nil
 }
 
+// contains tells whether an address, taken in its 16-byte form, lies in the pool.
+// net.IPNet.Contains compares a v4-mapped address as the IPv4 address it maps, and
+// so never finds it in a pool such as ::/80 that covers ::ffff:0:0/96 without being
+// v4-mapped itself: hints for that part of the pool were ignored, and blocks
+// allocated there could not be freed
+func (a *Allocator) contains(ip net.IP) bool {
+	ip, base, mask := ip.To16(), a.containing.IP.To16(), a.containing.Mask
+	if ip == nil || base == nil || len(mask) != net.IPv6len {
+		return false
+	}
+	for i := range ip {
+		if ip[i]&mask[i] != base[i]&mask[i] {
+			return false
+		}
+	}
+	return true
+}
+
 func (a *Allocator) toPrefix(idx uint) (net.IP, error) {
 	return allocators.AddPrefixes(a.containing.IP, uint64(idx), uint64(a.page))
 }
@@ -69,7 +87,7 @@ func (a *Allocator) Allocate(hint net.IPNet) (ret net.IPNet, err error) {
 	// Try to allocate the requested prefix
 	a.l.Lock()
 	defer a.l.Unlock()
-	if hint.IP.To16() != nil && a.containing.Contains(hint.IP) {
+	if a.contains(hint.IP) {
 		idx, hintErr := a.toIndex(hint.IP)
 		if hintErr == nil && !a.bitmap.Test(idx) {
 			a.bitmap.Set(idx)
@@ -97,7 +115,7 @@ func (a *Allocator) Allocate(hint net.IPNet) (ret net.IPNet, err error) {
 // Free returns the given prefix to the available pool if it was taken.
 func (a *Allocator) Free(prefix net.IPNet) error {
 	base := prefix.IP.Mask(prefix.Mask)
-	if !a.containing.Contains(base) {
+	if !a.contains(base) {
 		// toIndex computes an absolute distance: without this check a prefix
 		// below the pool would alias a block inside it
 		return fmt.Errorf("Could not find prefix in pool: %s is not in %s", prefix.String(), a.containing.String())
